@@ -6,16 +6,19 @@
    which the REAL run performed them; the observation is the list of results per thread. *)
 From Coq Require Import String.
 From Coq Require Import List NArith ZArith Bool Arith.
-From VF Require Import Base.Sx Conc.Machine Conc.Lin Conc.Instances.
+From VF Require Import Base.Sx Conc.Machine Conc.MachineProofs Conc.Lin Conc.RealTime Conc.Instances.
 Import ListNotations.
 Local Open Scope nat_scope.
 
+(* stamps: for every thread and every call the real-time predecessors (thread, index of its last call that
+   had returned when this call was invoked) *)
+Definition stamps := list (list (list (nat * nat))).
 Inductive case :=
-  | Cache (capacity : nat) (calls : list (list ccall)) (sch : list (choice unit))
+  | Cache (capacity : nat) (calls : list (list ccall)) (st : stamps) (sch : list (choice unit))
   | Text (contents : list (list (nat * nat))) (badl : list bool) (cache_enabled : bool)
-         (calls : list (list tcall)) (sch : list (choice unit))
-  | Store (calls : list (list scall)) (sch : list (choice unit))
-  | Yaml (table : list (list ydata)) (tree : list nat) (w0 : list nat) (ncalls : list nat)
+         (calls : list (list tcall)) (st : stamps) (sch : list (choice unit))
+  | Store (calls : list (list scall)) (st : stamps) (sch : list (choice unit))
+  | Yaml (table : list (list ydata)) (tree : list nat) (w0 : list nat) (ncalls : list nat) (st : stamps)
          (sch : list (choice nat)) (post : bool).
 Definition obs := list (list R).
 
@@ -47,12 +50,44 @@ Definition y_init w0 (ncalls : list nat) :=
 Definition y_run table tree once :=
   run (option yitem) (list nat) yls unit R nat yls_begin (yaml_prog (y_table table) tree once) yret bump.
 
+(* ---------- the instrumented (real-time) machines ---------- *)
+Fixpoint zip_stamps {A} (i : nat) (cs : list A) (ps : list (list (nat * nat))) : list (rcall A) :=
+  match cs with
+  | [] => []
+  | c :: r => (c, (i, match ps with p :: _ => p | [] => [] end)) :: zip_stamps i r (tl ps)
+  end.
+Fixpoint rcalls_from {A} (i : nat) (calls : list (list A)) (st : stamps) : list (list (rcall A)) :=
+  match calls with
+  | [] => []
+  | cs :: r => zip_stamps i cs (match st with p :: _ => p | [] => [] end) :: rcalls_from (S i) r (tl st)
+  end.
+Definition rcalls {A} (calls : list (list A)) (st : stamps) := rcalls_from 0 calls st.
+Definition POISON : R := [99].
+
+Definition cr_init capacity calls st :=
+  init (robj lru) unit (rls (ccall * R)) (rcall ccall) (option R) (rbegin _ _ c_begin (CLen, (0, [])))
+       ({| cap := capacity; items := [] |}, repeat 0 (length calls)) tt (rcalls calls st).
+Definition cr_run := run (robj lru) unit (rls (ccall * R)) (rcall ccall) (option R) unit
+                         (rbegin _ _ c_begin) (rprog _ _ _ _ cache_body) (rret _ _ c_ret) c_env.
+Definition tr_init calls st :=
+  init (robj tobj) nat (rls tls) (rcall tcall) (option R) (rbegin _ _ t_begin (TGet 0, (0, [])))
+       ({| fver := None; parsed := [] |}, repeat 0 (length calls)) 0 (rcalls calls st).
+Definition tr_run contents badl ce :=
+  run (robj tobj) nat (rls tls) (rcall tcall) (option R) unit
+      (rbegin _ _ t_begin) (rprog _ _ _ _ (text_body (t_contents contents) (t_bad badl) ce)) (rret _ _ tres) t_env.
+Definition sr_init calls st :=
+  init (robj store) unit (rls (scall * R)) (rcall scall) (option R) (rbegin _ _ s_begin (SGetData 0, (0, [])))
+       ([], repeat 0 (length calls)) tt (rcalls calls st).
+Definition sr_run := run (robj store) unit (rls (scall * R)) (rcall scall) (option R) unit
+                         (rbegin _ _ s_begin) (rprog _ _ _ _ store_body) (rret _ _ s_ret) c_env.
+Definition plain (l : list (list (option R))) : obs := map (map (unwrap POISON)) l.
+
 Definition run_model (c : case) : obs :=
   match c with
-  | Cache capacity calls sch => results _ _ _ _ _ (c_run true (c_init capacity calls) sch)
-  | Text contents badl ce calls sch => results _ _ _ _ _ (t_run contents badl ce true (t_init calls) sch)
-  | Store calls sch => results _ _ _ _ _ (s_run (s_init calls) sch)
-  | Yaml table tree w0 ncalls sch post => results _ _ _ _ _ (y_run table tree true (y_init w0 ncalls) sch)
+  | Cache capacity calls st sch => plain (results _ _ _ _ _ (cr_run (cr_init capacity calls st) sch))
+  | Text contents badl ce calls st sch => plain (results _ _ _ _ _ (tr_run contents badl ce (tr_init calls st) sch))
+  | Store calls st sch => plain (results _ _ _ _ _ (sr_run (sr_init calls st) sch))
+  | Yaml table tree w0 ncalls st sch post => results _ _ _ _ _ (y_run table tree true (y_init w0 ncalls) sch)
   end.
 
 (* ---------- linearizable ---------- *)
@@ -71,11 +106,24 @@ Definition s_search calls (sch : list (choice unit)) (o : obs) : bool :=
   search store unit (scall * R) scall R unit s_begin store_prog s_ret c_env r_eqb
          (fuel_for sch calls) (s_init calls) (envs_of sch) o.
 
+(* the same search over the instrumented machines: linearizable AND real-time order respected *)
+Definition wrap_obs (o : obs) : list (list (option R)) := map (map (@Some R)) o.
+Definition cr_search capacity calls st (sch : list (choice unit)) (o : obs) : bool :=
+  search (robj lru) unit (rls (ccall * R)) (rcall ccall) (option R) unit (rbegin _ _ c_begin)
+         (rprog _ _ _ _ cache_body) (rret _ _ c_ret) c_env (opt_eqb r_eqb)
+         (fuel_for sch calls) (cr_init capacity calls st) (envs_of sch) (wrap_obs o).
+Definition tr_search contents badl ce calls st (sch : list (choice unit)) (o : obs) : bool :=
+  search (robj tobj) nat (rls tls) (rcall tcall) (option R) unit (rbegin _ _ t_begin)
+         (rprog _ _ _ _ (text_body (t_contents contents) (t_bad badl) ce)) (rret _ _ tres) t_env (opt_eqb r_eqb)
+         (fuel_for sch calls) (tr_init calls st) (envs_of sch) (wrap_obs o).
+Definition sr_search calls st (sch : list (choice unit)) (o : obs) : bool :=
+  search (robj store) unit (rls (scall * R)) (rcall scall) (option R) unit (rbegin _ _ s_begin)
+         (rprog _ _ _ _ store_body) (rret _ _ s_ret) c_env (opt_eqb r_eqb)
+         (fuel_for sch calls) (sr_init calls st) (envs_of sch) (wrap_obs o).
+
 (* YAML: get_data is a read-only function of the file states at specification level: every result must be
    get_data_spec of ONE of the file states present during the run, non-decreasing along each thread; the
    post thread (the last one) must see the final state *)
-Fixpoint worlds_of (w : list nat) (envs : list nat) : list (list nat) :=
-  match envs with [] => [w] | e :: r => w :: worlds_of (bump e w) r end.
 Fixpoint first_match (r : R) (specs : list R) : option (list R) :=
   match specs with
   | [] => None
@@ -88,14 +136,42 @@ Fixpoint match_mono (rs : list R) (specs : list R) : bool :=
   end.
 Definition y_specs table tree w0 (sch : list (choice nat)) : list R :=
   map (fun w => flat (yspec (y_table table) (snapshot_of tree w))) (worlds_of w0 (envs_of sch)).
-Definition y_check table tree w0 (sch : list (choice nat)) (post : bool) (o : obs) : bool :=
-  let specs := y_specs table tree w0 sch in
+(* clause 1 (proved for the model): every answer is get_data_spec of a file state present during the run *)
+Definition y_member (specs : list R) (o : obs) : bool :=
+  forallb (forallb (fun r => existsb (r_eqb r) specs)) o.
+(* clause 2: along each thread the states answered for do not go back, and the post thread (the last
+   one) sees the final state *)
+(* real time across threads: a call invoked after another call had returned must not answer for an
+   earlier state than that call did (earliest state matching the predecessor <= latest state matching it) *)
+Fixpoint first_idx (r : R) (specs : list R) (i : nat) : option nat :=
+  match specs with [] => None | s :: sp => if r_eqb r s then Some i else first_idx r sp (S i) end.
+Fixpoint last_idx (r : R) (specs : list R) (i : nat) (acc : option nat) : option nat :=
+  match specs with [] => acc | s :: sp => last_idx r sp (S i) (if r_eqb r s then Some i else acc) end.
+Definition y_rt_call (specs : list R) (o : obs) (r : R) (ps : list (nat * nat)) : bool :=
+  forallb (fun p => match first_idx (nth (snd p) (nth (fst p) o []) []) specs 0, last_idx r specs 0 None with
+                    | Some a, Some b => Nat.leb a b
+                    | _, _ => true
+                    end) ps.
+Fixpoint y_rt_thread (specs : list R) (o : obs) (rs : list R) (pss : list (list (nat * nat))) : bool :=
+  match rs, pss with
+  | r :: rs', ps :: pss' => y_rt_call specs o r ps && y_rt_thread specs o rs' pss'
+  | _, _ => true
+  end.
+Fixpoint y_rt (specs : list R) (o : obs) (ts : obs) (st : stamps) : bool :=
+  match ts, st with
+  | rs :: ts', pss :: st' => y_rt_thread specs o rs pss && y_rt specs o ts' st'
+  | _, _ => true
+  end.
+Definition y_order (specs : list R) (st : stamps) (post : bool) (o : obs) : bool :=
+  y_rt specs o o st &&
   forallb (fun rs => match_mono rs specs) o &&
   (if post then match rev o with
                 | last :: _ => forallb (fun r => r_eqb r (List.last specs [])) last
                 | [] => true
                 end
    else true).
+Definition y_check table tree w0 (sch : list (choice nat)) (post : bool) (o : obs) : bool :=
+  let specs := y_specs table tree w0 sch in y_member specs o && y_order specs [] post o.
 
 Local Open Scope string_scope.
 Definition is_exc (r : R) : bool := match r with 9 :: _ => true | _ => false end.
@@ -109,21 +185,44 @@ Definition shape_ok {A} (calls : list (list A)) (o : obs) : bool :=
 
 Definition holds (c : case) (o : obs) : list string :=
   match c with
-  | Cache capacity calls sch => if c_search capacity calls sch o then [] else blame o
-  | Text contents badl ce calls sch => if t_search contents badl ce calls sch o then [] else blame o
-  | Store calls sch => if s_search calls sch o then [] else blame o
-  | Yaml table tree w0 ncalls sch post => if y_check table tree w0 sch post o then [] else blame o
+  | Cache capacity calls st sch =>
+      if cr_search capacity calls st sch o then []
+      else if c_search capacity calls sch o then ["real_time_order"] else blame o
+  | Text contents badl ce calls st sch =>
+      if tr_search contents badl ce calls st sch o then []
+      else if t_search contents badl ce calls sch o then ["real_time_order"] else blame o
+  | Store calls st sch =>
+      if sr_search calls st sch o then []
+      else if s_search calls sch o then ["real_time_order"] else blame o
+  | Yaml table tree w0 ncalls st sch post =>
+      let specs := y_specs table tree w0 sch in
+      (if y_member specs o then [] else blame o) ++
+      (if y_order specs st post o then [] else ["real_time_order_and_final_state"])
   end.
 
-(* valid: the schedule runs every call to completion (it is the record of a complete run).  YAML cases are
-   not covered by C19_holds: their acceptance by the checker is verified at run time for every generated
-   case, and the logic is covered by the yaml_concurrent theorems. *)
+(* valid: the schedule runs every call to completion (it is the record of a complete run) and, replayed on
+   the instrumented model, no call starts its critical section before a call that had really returned
+   before its invocation has finished its own (no_none: the recorded invocation/response stamps bracket
+   the critical sections; a decidable condition of the case).  YAML cases: at
+   most one file change during the run (with more, even the fixed code can combine an old version of one
+   file with a new version of another); clause 1 (`linearizable`) is then PROVED for the model; that the
+   model also passes clause 2 (program order / final state) is a decidable side condition of the case,
+   checked at run time for every generated case, not proved. *)
 Definition valid (c : case) : Prop :=
   match c with
-  | Cache capacity calls sch => all_done _ _ _ _ _ (c_run true (c_init capacity calls) sch) = true
-  | Text contents badl ce calls sch => all_done _ _ _ _ _ (t_run contents badl ce true (t_init calls) sch) = true
-  | Store calls sch => all_done _ _ _ _ _ (s_run (s_init calls) sch) = true
-  | Yaml _ _ _ _ _ _ => False
+  | Cache capacity calls st sch =>
+      all_done _ _ _ _ _ (cr_run (cr_init capacity calls st) sch) = true /\
+      no_none (results _ _ _ _ _ (cr_run (cr_init capacity calls st) sch)) = true
+  | Text contents badl ce calls st sch =>
+      all_done _ _ _ _ _ (tr_run contents badl ce (tr_init calls st) sch) = true /\
+      no_none (results _ _ _ _ _ (tr_run contents badl ce (tr_init calls st) sch)) = true
+  | Store calls st sch =>
+      all_done _ _ _ _ _ (sr_run (sr_init calls st) sch) = true /\
+      no_none (results _ _ _ _ _ (sr_run (sr_init calls st) sch)) = true
+  | Yaml table tree w0 ncalls st sch post =>
+      length (envs_of sch) <= 1 /\
+      y_order (y_specs table tree w0 sch) st post
+              (results _ _ _ _ _ (y_run table tree true (y_init w0 ncalls) sch)) = true
   end.
 
 (* ---------- sx ---------- *)
@@ -162,24 +261,28 @@ Definition asChoiceN (x : sx) : option (choice nat) :=
   match x with I z => if (z <? 0)%Z then Some (Ev (Z.to_nat (- z - 1))) else Some (T (Z.to_nat z)) | _ => None end.
 Definition asObs (x : sx) : option obs := asListOf (asListOf (asListOf asNat)) x.
 
+Definition asStamps (x : sx) : option stamps := asListOf (asListOf (asListOf asPair)) x.
 Definition decode (x : sx) : option (case * obs) :=
   match x with
-  | L [I 0%Z; capacity; calls; sch; io] =>
+  | L [I 0%Z; capacity; calls; st; sch; io] =>
       obind (asNat capacity) (fun capacity => obind (asListOf (asListOf asCC) calls) (fun calls =>
-      obind (asListOf asChoiceU sch) (fun sch => obind (asObs io) (fun io => Some (Cache capacity calls sch, io)))))
-  | L [I 1%Z; contents; badl; ce; calls; sch; io] =>
+      obind (asStamps st) (fun st =>
+      obind (asListOf asChoiceU sch) (fun sch => obind (asObs io) (fun io => Some (Cache capacity calls st sch, io))))))
+  | L [I 1%Z; contents; badl; ce; calls; st; sch; io] =>
       obind (asListOf (asListOf asPair) contents) (fun contents => obind (asListOf asBool badl) (fun badl =>
       obind (asBool ce) (fun ce => obind (asListOf (asListOf asTC) calls) (fun calls =>
+      obind (asStamps st) (fun st =>
       obind (asListOf asChoiceU sch) (fun sch => obind (asObs io) (fun io =>
-      Some (Text contents badl ce calls sch, io)))))))
-  | L [I 2%Z; calls; sch; io] =>
-      obind (asListOf (asListOf asSC) calls) (fun calls => obind (asListOf asChoiceU sch) (fun sch =>
-      obind (asObs io) (fun io => Some (Store calls sch, io))))
-  | L [I 3%Z; table; tree; w0; ncalls; sch; post; io] =>
+      Some (Text contents badl ce calls st sch, io))))))))
+  | L [I 2%Z; calls; st; sch; io] =>
+      obind (asListOf (asListOf asSC) calls) (fun calls => obind (asStamps st) (fun st =>
+      obind (asListOf asChoiceU sch) (fun sch =>
+      obind (asObs io) (fun io => Some (Store calls st sch, io)))))
+  | L [I 3%Z; table; tree; w0; ncalls; st; sch; post; io] =>
       obind (asListOf (asListOf (asListOf asPair)) table) (fun table => obind (asListOf asNat tree) (fun tree =>
-      obind (asListOf asNat w0) (fun w0 => obind (asListOf asNat ncalls) (fun ncalls =>
+      obind (asListOf asNat w0) (fun w0 => obind (asListOf asNat ncalls) (fun ncalls => obind (asStamps st) (fun st =>
       obind (asListOf asChoiceN sch) (fun sch => obind (asBool post) (fun post => obind (asObs io) (fun io =>
-      Some (Yaml table tree w0 ncalls sch post, io))))))))
+      Some (Yaml table tree w0 ncalls st sch post, io)))))))))
   | _ => None
   end.
 
